@@ -41,6 +41,7 @@ SHAPES = [
     (6, (('AND', (0, 1)), ('OR', (2, 3)), ('XOR', (4, 5)), ('XOR', (6, 7)), ('AND', (7, 8)), ('OR', (9, 10)), ('XOR', (11, 6))), (12, 10)),
 ]
 WIDE_SHAPES = {18}  # run with the wide-cut parameter sets only
+WIDE6_TYPES = (('NAND', 'AND'), ('NOR', 'OR'), ('NXOR', 'XOR'), ('XOR', 'NXOR'), ('AND', 'GT', 'NOR'))  # 48 typings of the six-input shape
 
 
 class PSet(set):
@@ -133,10 +134,11 @@ LABEL_SCHEMES = ('tmp-asc', 'tmp-desc', 'tmp-gates', 'tmp-gates-desc', 'digits-a
 def env_menu(n_solver_calls, use_pool, only_set=False):
     """Single deviations from the default environment."""
     if only_set:
-        return [{'set': 'desc'}, {'set': 'rot1'}, {'set': 'rot2'}]
+        return [{'set': 'desc'}, {'set': 'rot1'}, {'set': 'rot2'}, {'storage': 'scrambled'}]
     devs = [{'solver': 'phase'}, {'solver': 'mixed'}, {'set': 'desc'}, {'set': 'rot1'}, {'set': 'rot2'},
             {'cuts': 'reverse_cuts'}, {'cuts': 'reverse_leaves'}, {'cuts': 'keep_dominated'}, {'cuts': 'trivial_first'}]
     devs += [{'labels': sch} for sch in LABEL_SCHEMES]
+    devs.append({'storage': 'scrambled'})
     if use_pool:
         for i in range(n_solver_calls):
             devs.append({'timeout_at': i})
@@ -154,6 +156,8 @@ def run_once(n, gates, outs, basis, params, env):
     boot.uuid_counter.reset()
     labs = scheme_labels(env.get('labels', 'default'), n, len(gates))
     c = space.build(n, gates, outs) if labs is None else space.build_from_net(space.spec_net(n, gates, outs, labs=labs))
+    if env.get('storage') == 'scrambled':  # users-first gate map, as after parsing a text with forward references
+        c = space.scramble_storage(c)
     mw.ENV.reset()
     cuts = env.get('cuts', 'default')
     if cuts.startswith('drop'):
@@ -325,6 +329,8 @@ def plan(tier):
     t = []
     for i in range(len(SHAPES)):
         t.append({'kind': 'shape', 'i': i, 'dev': 1 if tier == 'quick' else 2})
+    for first in WIDE6_TYPES[0]:
+        t.append({'kind': 'wide6', 'first': first, 'dev': 1 if tier == 'quick' else 2})
     for topo in TOPOLOGIES:
         for t0 in TOPO_TYPES:
             for t1 in TOPO_TYPES:
@@ -341,7 +347,7 @@ def plan(tier):
 
 def describe(tier):
     return {
-        'rule': 'wide cuts: a six-input shape with cut_size 4..7 (cuts of six leaves); topo: three five-gate topologies of a two-output cone over three leaves whose outputs share an inner gate x {AND,OR,XOR}^5 (729 circuits, XAIG, direct solver call; thorough also AIG+validation and set-order deviations); label deviations: node labels drawn from the names the library generates itself (tmp_<i>, decimal labels of synthesised circuits), ascending/descending; circuit of F(n,k,A04) (11 supported gate types; A04S = {NOT,AND,OR,XOR,GT,NOR}) x outputs {last gate, last gate twice, all sinks, all gates} x '
+        'rule': 'wide cuts: a six-input shape with cut_size 4..7 and its 48 typings with complemented gate types (cut_size 5/6; thorough 5..7 + validation) (cuts of six leaves); storage deviation: users-first gate map; topo: three five-gate topologies of a two-output cone over three leaves whose outputs share an inner gate x {AND,OR,XOR}^5 (729 circuits, XAIG, direct solver call; thorough also AIG+validation and set-order deviations); label deviations: node labels drawn from the names the library generates itself (tmp_<i>, decimal labels of synthesised circuits), ascending/descending; circuit of F(n,k,A04) (11 supported gate types; A04S = {NOT,AND,OR,XOR,GT,NOR}) x outputs {last gate, last gate twice, all sinks, all gates} x '
         'basis {AIG, XAIG, FULL, "xaig"} x parameter sets (direct solver call, pool path, validation on, small cut/size limits, cut_limit 1) '
         'x E3: default environment, then every single deviation (solver model: other phase / mixed phase; solver time-out '
         'on each solver call (fake pool); cut family: reversed per-node order, reversed leaf order, dominated cuts kept, trivial cut '
@@ -372,7 +378,7 @@ def run_task(task, acc):
         if task['i'] in WIDE_SHAPES:
             for b in ('XAIG', 'AIG', 'FULL'):
                 for pname, params in WIDE_PARAM_SETS.items():
-                    check_circuit(acc, n, gates, outs, basis_arg(b), dict(params), 1 if (b == 'XAIG' and task['dev'] >= 2 and pname == 'cut6') else 0, only_set=True)
+                    check_circuit(acc, n, gates, outs, basis_arg(b), dict(params), 1 if (b == 'XAIG' and pname == 'cut6') else 0, only_set=True)
             acc.sample({**space.spec_json(n, gates, outs), 'basis': 'XAIG', 'params': WIDE_PARAM_SETS['cut6'], 'env': {}})
             return
         for b in ('AIG', 'XAIG', 'FULL', 'xaig'):
@@ -386,6 +392,15 @@ def run_task(task, acc):
                 dev = task['dev'] if (b == 'XAIG' and pname in ('direct', 'pool', 'valid')) else (1 if (task['dev'] >= 2 and pname in ('direct', 'validpool')) else 0)
                 check_circuit(acc, n, gates, outs, basis_arg(b), dict(params), dev)
         acc.sample({**space.spec_json(n, gates, outs), 'basis': 'XAIG', 'params': PARAM_SETS['direct'], 'env': {}})
+        return
+    if task['kind'] == 'wide6':
+        for types in itertools.product(*WIDE6_TYPES):
+            if types[0] != task['first']:
+                continue
+            gates = ((types[0], (0, 1)), (types[1], (2, 3)), (types[2], (4, 5)), (types[3], (6, 7)), (types[4], (7, 8)), ('OR', (9, 10)), ('XOR', (11, 6)))
+            for pname in ('cut6', 'cut5') if task['dev'] < 2 else ('cut6', 'cut5', 'cut7', 'cut6valid'):
+                check_circuit(acc, 6, gates, (12, 10), basis_arg('XAIG'), dict(WIDE_PARAM_SETS[pname]), 0)
+        acc.sample({**space.spec_json(6, gates, (12, 10)), 'basis': 'XAIG', 'params': WIDE_PARAM_SETS['cut6'], 'env': {}})
         return
     if task['kind'] == 'topo':
         ops, outs = TOPOLOGIES[task['topo']]
